@@ -15,8 +15,9 @@
 // Oracle (history monitor riding in the seqx.Sys): the engine ACCEPTED a lock when Put(L) returned
 // nil while Get(O) was succeeding and the lock was not expired. From then on and until
 // epoch > expiration(L), after EVERY transition engine.Get(O) must return O with identical bytes,
-// unless every shard that has held a copy of O since then has its blob reads failing (what an
-// unlocked, never removed object on the same shards would answer as well). Nothing else is
+// unless no shard that has held a copy of O since then could serve an unlocked, never removed object
+// stored the same way (its blob reads are failing, or the copy was put while the shard had no
+// metabase and the metabase, now open, has never listed it). Nothing else is
 // demanded: tombstones may be accepted or rejected, the lock state of single shards is not judged.
 package main
 
@@ -254,6 +255,7 @@ type sys struct {
 	protected bool   // a lock was accepted while O was retrievable
 	until     uint64 // protection lasts while epoch <= until
 	copies    []bool // shards that have held O's blob since the protection began
+	indexed   []bool // shards whose metabase has ever listed O (a blob put in degraded mode is never indexed)
 	tomb      string // result of the last tombstone broadcast: "", "accepted", "rejected"
 	lastGetOK bool
 	dead      bool // O is physically gone from every shard while protected: nothing left to explore
@@ -276,7 +278,7 @@ func newSys(u *universe) *sys {
 	if err != nil {
 		panic(err)
 	}
-	s := &sys{u: u, w: w, oVer: -1, copies: make([]bool, u.shards), shadow: map[string]string{}}
+	s := &sys{u: u, w: w, oVer: -1, copies: make([]bool, u.shards), indexed: make([]bool, u.shards), shadow: map[string]string{}}
 	s.observe()
 	return s
 }
@@ -521,6 +523,9 @@ func (s *sys) observe() {
 				v += "[" + f + "]"
 			}
 			s.shadow[s.shadowKey(i, o)] = v
+			if o == obj && len(st.HeaderIndex) > 0 {
+				s.indexed[i] = true
+			}
 		}
 	}
 	var got *object.Object
@@ -536,9 +541,10 @@ func (s *sys) observe() {
 	for _, h := range hs {
 		s.copies[h] = true
 	}
+	// could some shard serve an unlocked, never removed object stored the way O is stored there?
 	readable := false
 	for h, c := range s.copies {
-		readable = readable || (c && !w.Shards[h].Stor.ReadsFailing())
+		readable = readable || (c && !w.Shards[h].Stor.ReadsFailing() && (s.indexed[h] || w.Mode(h).NoMetabase()))
 	}
 	switch {
 	case err == nil && string(got.Marshal()) != string(obj.Marshal()):
@@ -546,7 +552,7 @@ func (s *sys) observe() {
 	case err == nil:
 		cntJudgedOK.Add(1)
 	case !readable:
-		cntExcused.Add(1) // every shard that has held O cannot read blobs: nothing stored there is served
+		cntExcused.Add(1) // no shard that has held O can serve anything stored like O (blob reads fail, or O was never indexed there)
 	default:
 		fp, what := s.diagnose(obj, hs, err)
 		s.fail(fp, what)
@@ -660,7 +666,7 @@ func (s *sys) Key() string {
 			fmt.Fprintf(&sb, "%v/%s,", ok, s.shadow[s.shadowKey(i, o)])
 		}
 	}
-	fmt.Fprintf(&sb, "|%v/%d/%v/%s/%v/%v", s.protected, s.until, s.copies, s.tomb, s.lastGetOK, s.dead)
+	fmt.Fprintf(&sb, "|%v/%d/%v/%v/%s/%v/%v", s.protected, s.until, s.copies, s.indexed, s.tomb, s.lastGetOK, s.dead)
 	return sb.String()
 }
 
@@ -748,20 +754,20 @@ func main() {
 	r.Set("outcome_classes", totalObs)
 	r.Set("judged_observations", cntJudged.Load())
 	r.Set("judged_observations_object_served", cntJudgedOK.Load())
-	r.Set("judged_observations_excused_by_read_faults", cntExcused.Load())
+	r.Set("judged_observations_excused_by_unservable_shards", cntExcused.Load())
 	r.Set("protection_started", cntProtStart.Load())
 	r.Set("protection_ended_by_lock_expiration", cntProtEnd.Load())
 	if cntJudged.Load() == 0 || cntJudgedOK.Load() == 0 || cntProtEnd.Load() == 0 {
 		r.Fatal("vacuous run: judged=%d served=%d expirations=%d", cntJudged.Load(), cntJudgedOK.Load(), cntProtEnd.Load())
 	}
-	fmt.Printf("  judged observations: %d (object served: %d, excused by read faults: %d); protection started %d times, ended by lock expiration %d times (counted over all replays)\n",
+	fmt.Printf("  judged observations: %d (object served: %d, excused (no shard able to serve even an unlocked object): %d); protection started %d times, ended by lock expiration %d times (counted over all replays)\n",
 		cntJudged.Load(), cntJudgedOK.Load(), cntExcused.Load(), cntProtStart.Load(), cntProtEnd.Load())
 	r.Rule("BFS over operation sequences on a real engine (error threshold " + strconv.Itoa(errThr) + "): " + strings.Join(rule, "; ") +
 		". Root-only macro letters are scripted prefixes of plain letters (oracle evaluated after each of their steps) and count as one step of the depth bound. States are deduplicated by (epoch; per shard: mode, fault plan, error counter, GC epochs, per object blob presence and metabase status; model: protection flag and end, shards that held O, last tombstone result, last Get result); engine.Get(O) is judged after every transition while an accepted lock is live; non-trivial = newly reached state")
 	r.Assume(
 		"single-threaded histories: concurrent lock/tombstone broadcasts are not explored; background GC never runs by itself (remover interval 24h), GC passes and new-epoch handlers are invoked synchronously through injected accessors, epochs are delivered to all shards at once",
 		"write faults fail a blob put before it touches the disk (thorough: read faults fail every blob read of a shard); metabase-level faults are not injected; no write-cache",
-		"a lock counts as accepted when engine.Put(lock) returned nil while engine.Get(O) was succeeding and the lock was not expired; a shard 'has held O' when O's file was seen in its FSTree after some transition since then",
+		"a lock counts as accepted when engine.Put(lock) returned nil while engine.Get(O) was succeeding and the lock was not expired; a shard 'has held O' when O's file was seen in its FSTree after some transition since then; a copy put while the shard was in degraded read-write mode is never indexed by the metabase and is only demanded while that shard serves without metabase",
 		"HRW order for O is shard 0, 1, 2 (fixed by the choice of the object ID); the shard-map order of lock/tombstone broadcasts and of the expired-objects callback is an explicit choice in the alphabet; Evacuate sorts by HRW, so its map order is irrelevant",
 		"forced removals (engine.Delete / Drop / container removal), which override locks by contract, are not in the alphabet; the tombstone expires at epoch 9 (never reached)",
 	)
